@@ -4,7 +4,7 @@ from vlib import core
 
 THEOREMS = ['name_rule', 'name_mac', 'name_other', 'prefix_table', 'id_doc', 'name_doc', 'name_deterministic', 'metadata_as_received',
             'skip_rule', 'reported_identified', 'unidentified_not_reported', 'probe_bounded', 'stalling_hosts_bounded',
-            'gen_after_cancel', 'run_bounded', 'probe_limits', 'skip_cond']
+            'gen_after_cancel', 'run_bounded', 'probe_limits', 'run_bound_sites', 'skip_cond']
 MODULES = ['LLRP.Gen.ProbeFacts', 'LLRP.Model.Probe', 'LLRP.Model.Discover', 'LLRP.Proofs.Discover', 'LLRP.Oracle.C17']
 RULE = ('real probe() against a scripted loopback LLRP host (hand-written frames, payloads from the repo marshalers): vendors {Impinj, Alien, Zebra, '
         '0, 50, Impinj+-1, random} x models {9 table models, neighbours, 0, 0x32, 2^32-1, random} x id types {0,1,2,255,random} x reader ids of '
